@@ -374,7 +374,10 @@ class Lowerer:
     def cut_loop(self, s, ordinal, name):
         if self.spec.get('_route') == 'D': return self.annotate_loop(s, ordinal, name)
         t, loops = self.find_loops(s)
-        if ordinal >= len(loops): raise ExtractError('loop %d not found (have %d)' % (ordinal, len(loops)))
+        if ordinal >= len(loops):
+            # the loop the unit wants to cut is gone (somebody edited the function): nothing to cut, the obligations decide
+            self.fire('cut_loop_missing:' + name)
+            return s
         kind, i = loops[ordinal]
         def body_bounds(p):
             # p: index of first token of the body statement
